@@ -249,9 +249,14 @@ def alias_desc(desc):
     return desc
 
 
+RAW_ARGS = False     # set by the purity histories that must hand the SAME argument object to consecutive calls
+
+
 def load_desc(desc):
     """returns ('ok', ProcessorDesc) or ('err', (cls, fields, msg))"""
     pu = M("processor_utils")
+    if RAW_ARGS:
+        return _load_desc(pu, desc)
     alias_desc(desc)
     # `units` and `dataPath` are typed Iterable: lists, tuples and one-shot iterables in turn; and one call in three
     # runs with the root logger at INFO, as the command-line driver configures it (handlers silenced)
